@@ -13,6 +13,7 @@ from fractions import Fraction
 import tgen
 from vcheck import Case, gnlist, gq
 from props import c18_util as U
+from props import c18_static as S
 
 PROP = "C18"
 LEVEL = "proof"
@@ -21,7 +22,7 @@ COQ_TARGETS = ["Props/C18.vo", "Props/C18Perm.vo", "Props/C18Rows.vo", "Props/C1
 THEOREM_FILES = ["Props/C18.v", "Props/C18Perm.v", "Props/C18Rows.v", "Props/C18W4.v", "Props/C18W4H.v", "Props/C18W4O.v", "Props/C18W4S.v"]
 COQ_IMPORTS = ("From Coq Require Import List ZArith Bool QArith Qcanon.\n"
                "From PV Require Import Base.Index Np.Array Model.Sparse Model.Repr Model.Harness Model.C18Cmp.\n")
-SHARD = 14          # quick tier (222 evaluated pairs): 16 shards = one round on 16 cores; ~1.3 s of library loading per shard
+SHARD = 16          # quick tier (247 evaluated pairs): 16 shards = one round on 16 cores; ~1.3 s of library loading per shard
 TOL = Fraction(1, 10 ** 8)
 # per-sweep KKT violations (cp_apr) are a derived diagnostic max|min(m, 1 - sum x / (m . pi))|: entries of size 1e-8 (the value
 # PDNR / PQNR patch all-zero rows of the start with) turn the 1e-16 rounding of the model into 1e-8 in the diagnostic (wave 3b, seed 8:
@@ -400,6 +401,21 @@ def _nvecs_ok(b):
 FAR_SCALES = [2.0 ** -24, 2.0 ** -17, 2.0 ** 24, 2.0 ** -20, 2.0 ** -30, 2.0 ** 30]      # wave 4: + 2^30 (hosvd quick: each once)
 
 
+XSCALES = [2.0 ** -45, 2.0 ** 45, 2.0 ** -36, 2.0 ** -40, 2.0 ** 40, 2.0 ** -33]        # wave 5: far below / above every absolute default tolerance
+
+
+def gen_binary(rng, shape, rank, ok=None):
+    """0 / 1 data (F-order) whose mode-n unfoldings have exact rank >= the requested rank (per mode for Tucker ranks), not all equal"""
+    need = rank if isinstance(rank, list) else [rank] * len(shape)
+    n = math.prod(shape)
+    for _ in range(300):
+        data = [1 if rng.random() < 0.6 else 0 for _ in range(n)]
+        if len(set(data)) == 2 and all(unfold_rank(shape, data, m) >= min(need[m], shape[m], n // shape[m]) for m in range(len(shape))) \
+                and (ok is None or ok(data)):
+            return data
+    return data
+
+
 def _scaled(b, c):
     t = dict(b)
     key = "vals" if b["sparse"] else "data"
@@ -644,6 +660,53 @@ def gen_cases(rng, tier):
                 t = dict(b)
                 t.update({"printitn": p2, "printinner": q2})
                 cases.append(_mk("print", alg, b1, t, extra={"zero_init": True, "printinner": True}))
+    # 11. (wave 5, generated after section 10) regression input of the repaired finding C18-PQNR-PRINT (/repo c01a61b): the exact
+    #     witness run, silent vs printed every 1 / 2 iterations - an ordinary pair at 1e-8 now
+    for pr in (1, 2):
+        t = dict(REGRESSION_PQNR_PRINT)
+        t["printitn"] = pr
+        cases.append(_mk("print", "cp_apr_pqnr", dict(REGRESSION_PQNR_PRINT), t, extra={"regression": "C18-PQNR-PRINT"}))
+    # 12. (wave 5) EXTREME scales 2^-45 .. 2^45 (exact in floats; squared norms down to 1e-25 / up to 1e+30 are far inside the double
+    #     range): data whose Frobenius norm is far below every absolute tolerance numpy offers by default (np.isclose / allclose atol
+    #     1e-8, eps-sized floors) or far above 1 - an "is the norm zero" / "did the fit change" test written with an absolute
+    #     tolerance acts on one side of the pair only. >= 3 sweeps allowed and a stopping tolerance that does not fire at once on
+    #     most of them, so that the sweep count is part of what is compared; dense and sparse holders
+    for alg, nq, n in (("cp_als", 4, 2), ("tucker_als", 2, 1), ("hosvd", 2, 1)):
+        for j in range(cnt(nq, n)):
+            b = base_run(rng, alg, graded=(rng.choice([4, 5]) if alg == "hosvd" and j % 2 == 0 else None))
+            if "maxiters" in b["opts"]:
+                b["opts"]["maxiters"] = (5, 3, 4, 1)[j % 4]
+                b["opts"]["stoptol"] = (1e-4, 1e-6, 0.0, 1e-4)[j % 4]
+            b["printitn"] = (0, 0, 1)[j % 3]
+            if alg != "hosvd" and j % 3 == 1:
+                b = to_sparse(rng, b, "random")
+            cases.append(_scaled(b, XSCALES[(j + (0 if alg == "cp_als" else 1 if alg == "tucker_als" else 2)) % len(XSCALES)]))
+    # 13. (wave 5) the holder's VALUE DTYPE (op repr.<alg>, flag dtype): the same integer (count) data in a dense float64 tensor and in
+    #     a SPARSE tensor whose stored values are int64 / int32 / bool (sptensor keeps the dtype it is given: counts built from integer
+    #     arrays, indicator data), and - dense twin - in a dense tensor of that dtype. Anything allocated "in the dtype of the values"
+    #     (accumulators, right-hand sides) truncates on one side of the pair only. bool: the data are 0 / 1
+    DT = ("int64", "int32", "bool")
+    for alg, nq, n in (("cp_als", 4, 2), ("tucker_als", 2, 1), ("cp_apr_mu", 1, 1), ("cp_apr_pdnr", 1, 1), ("cp_apr_pqnr", 1, 1)):
+        for j in range(cnt(nq, n)):
+            dt = DT[j % 3] if alg in ("cp_als", "tucker_als") else DT[(j + len(alg)) % 2]
+            b = base_run(rng, alg)
+            if dt == "bool":
+                b["data"] = gen_binary(rng, b["shape"], b["rank"],
+                                       ok=(lambda d, b=b: _gap_ok(b["shape"], d, b["rank"])) if alg == "tucker_als" else None)
+            if "maxiters" in b["opts"] and alg in ("cp_als", "tucker_als"):
+                b["opts"]["maxiters"] = (3, 5, 2, 4)[j % 4]
+            if alg == "cp_apr_pqnr":
+                b["opts"].update({"maxiters": 1, "maxinneriters": 1})        # outside the regime of the open finding C18-PQNR-TIE
+            t = to_sparse(rng, b, ("random", "sorted", "reversed")[j % 3])
+            if alg in ("cp_als", "tucker_als") and j % 4 == 3:
+                t = dict(b)                                                   # dense twin: a dense tensor of that dtype
+            t["dtype"] = dt
+            cases.append(_mk("repr", alg, b, t, extra={"order": "dtype", "zero_slice": False, "dtype": dt}))
+    # 14. (wave 5) STATIC scan of the drivers' source (op print.static, tools/props/c18_static.py): the calls evaluated only because of
+    #     printing (arguments of print / logging / warnings calls, statements under a verbosity test) and the variables assigned under a
+    #     verbosity test must be the pinned ones - the part of the printing clause that the skeleton translator's drop rule takes on
+    #     trust (Proofs/C18GenPrint.v header): a new call inside a status line or a new assignment in a printing branch is reported
+    cases.append(Case("print.static", {"pair": "static", "alg": "static", "drivers": [q for _, q in S.DRIVERS]}, True))
     return cases
 
 
@@ -653,6 +716,13 @@ def run_impl(c):
     import pyttb as ttb
     a = c.args
     out = {}
+    if a["pair"] == "static":
+        import os
+        sc = S.scan(os.path.dirname(os.path.dirname(os.path.abspath(ttb.__file__))))
+        bad = S.unexpected(sc)
+        return {"scan": sc, "unexpected": [list(b) for b in bad],
+                "note": ("evaluated / assigned only when printing and NOT in the pinned table of tools/props/c18_static.py (trusted base of the "
+                         "print-independence theorems over the generated loops): " + "; ".join(f"{d}: {k} {n}" for d, k, n in bad)) if bad else ""}
     for side in ("base", "trans"):
         try:
             rd = a[side]
@@ -741,6 +811,8 @@ def _orient(a, x, y):
 
 def coq_check(c, o):
     a = c.args
+    if a["pair"] == "static":
+        return "false" if S.unexpected(o["scan"]) else "true"
     if _same_failure(o):
         return None                 # pyttb fails identically under both presentations (e.g. cp_apr PQNR's own L-BFGS assertion):
                                     # nothing presentation-dependent to compare, case not counted
@@ -791,6 +863,11 @@ def coq_check(c, o):
 def oracle(c, o):
     """pure-Python evaluation of the metamorphic relation on the two observations"""
     a = c.args
+    if a["pair"] == "static":
+        # a call / an assignment that happens only when printing and is not in the pinned table does not by itself refute the property
+        # (the call may be a pure read): it is a change of the TRUSTED BASE of the gen_*_print theorems - reported by the harness as a
+        # violation of the tie without a failing input; the print.* pairs of real runs decide whether results actually differ
+        return None
     if _same_failure(o):
         return None
     for side in ("base", "trans"):
@@ -842,28 +919,15 @@ def _trig_pqnr_tie(c):
     iterations (wave 3b: a row can land exactly on its stationary point with its first step; seen with maxiters=1, maxinneriters=2:
     direction [0.0] for the dense holder, [1.5e-17] for the sorted sparse one, which then takes the multiplicative fallback)"""
     a = c.args
-    o = a["base"]["opts"]
-    return a["pair"] == "repr" and a["alg"] == "cp_apr_pqnr" and (o["maxiters"] >= 2 or o["maxinneriters"] >= 2)
-
-
-def _prints_at(p, k):
-    return p > 0 and k % p == 0
-
-
-def _trig_pqnr_print(c):
-    """wave 4 (finding C18-PQNR-PRINT): PQNR print pairs in which some outer iteration that is FOLLOWED by another one (k <= maxiters - 2)
-    is printed under one setting and silent under the other. The status print of tt_cp_apr_pqnr evaluates tt_loglikelihood, which
-    normalises the running model IN PLACE (C05-N11): mathematically invisible, a 1e-16 perturbation in floats, which PQNR's next sweep
-    amplifies (mechanism of C18-PQNR-TIE) - measured 2.4e-8 relative in the returned model. printinneritn plays no role."""
-    a = c.args
-    if a["pair"] != "print" or a["alg"] != "cp_apr_pqnr":
+    if a["pair"] != "repr" or a["alg"] != "cp_apr_pqnr":
         return False
-    m = a["base"]["opts"]["maxiters"]
-    p1, p2 = int(a["base"].get("printitn", 0)), int(a["trans"].get("printitn", 0))
-    return any(_prints_at(p1, k) != _prints_at(p2, k) for k in range(max(0, m - 1)))
+    o = a["base"]["opts"]
+    return o["maxiters"] >= 2 or o["maxinneriters"] >= 2
 
 
-TRIGGERS = {"pqnr_tie_regime": _trig_pqnr_tie, "pqnr_print_regime": _trig_pqnr_print}
+# wave 5: C18-PQNR-PRINT was repaired by /repo c01a61b (tt_loglikelihood works on a copy): its trigger pqnr_print_regime and its witness
+# attribution are gone - PQNR print pairs are ordinary again at 1e-8; the witness input stays as the regression case REGRESSION_PQNR_PRINT
+TRIGGERS = {"pqnr_tie_regime": _trig_pqnr_tie}
 
 
 def _replay(base, order):
@@ -880,15 +944,10 @@ def _wit_tie():
     return _replay(base, "reversed")
 
 
-def _wit_print():
-    base = {"alg": "cp_apr_pqnr", "shape": [4, 3, 3], "sparse": False, "printitn": 0, "seed": None,
-            "init": {"den": 8, "factors": [[[1, 0], [5, 4], [0, 6], [5, 4]], [[8, 1], [7, 5], [1, 1]], [[0, 2], [5, 0], [1, 3]]]},
-            "data": [6, 6, 13, 15, 9, 3, 6, 10, 10, 12, 33, 0, 20, 0, 18, 0, 27, 10, 19, 27, 27, 0, 0, 45, 18, 9, 0, 21, 27, 10, 0, 28, 27, 12,
-                     29, 36], "rank": 2, "opts": {"maxiters": 2, "stoptol": 1e-06, "maxinneriters": 2, "precompinds": True}}
-    t = dict(base)
-    t["printitn"] = 1
-    c = _mk("print", "cp_apr_pqnr", base, t)
-    return oracle(c, run_impl(c))
+REGRESSION_PQNR_PRINT = {"alg": "cp_apr_pqnr", "shape": [4, 3, 3], "sparse": False, "printitn": 0, "seed": None,
+                         "init": {"den": 8, "factors": [[[1, 0], [5, 4], [0, 6], [5, 4]], [[8, 1], [7, 5], [1, 1]], [[0, 2], [5, 0], [1, 3]]]},
+                         "data": [6, 6, 13, 15, 9, 3, 6, 10, 10, 12, 33, 0, 20, 0, 18, 0, 27, 10, 19, 27, 27, 0, 0, 45, 18, 9, 0, 21, 27, 10, 0, 28,
+                                  27, 12, 29, 36], "rank": 2, "opts": {"maxiters": 2, "stoptol": 1e-06, "maxinneriters": 2, "precompinds": True}}
 
 
-WITNESSES = {"C18-PQNR-TIE": _wit_tie, "C18-PQNR-PRINT": _wit_print}
+WITNESSES = {"C18-PQNR-TIE": _wit_tie}
